@@ -106,6 +106,16 @@ impl Resolver<'_> {
                 // similarly as normal table references, we want to be able to infer columns
                 // of this table, which means it needs to be defined somewhere
                 // in the module structure.
+                if matches!(found.kind, ExprKind::RqOperator { .. }) {
+                    // a call of a scalar function whose return type is not declared
+                    // (e.g. `math.abs 5`) is not a table
+                    return Err(Error::new(Reason::Expected {
+                        who: who(),
+                        expected: "a table".to_string(),
+                        found: "a scalar".to_string(),
+                    })
+                    .with_span(found.span));
+                }
                 let Some(id) = found.id else {
                     // Expression has no id - this happens with bare lambdas like `x -> y`
                     let found_desc = match &found.kind {
